@@ -832,6 +832,10 @@ func (ex *Exec) runFrameFrom(fr *frame, b *ssa.BasicBlock) {
 		if next == nil {
 			panic("block without terminator")
 		}
+		if fr.phiBlock == b {
+			// merged phi values are valid only for the entry that followed the merge
+			fr.phiOverride, fr.phiBlock = nil, nil
+		}
 		prev, b = b, next
 	}
 }
@@ -1590,8 +1594,10 @@ func (ex *Exec) convert(from, to types.Type, v Value) Value {
 	case *Term:
 		if isString(tu) && isInteger(fu) {
 			// string(rune)
-			r := ex.choose(t, "int-to-string")
-			return ex.mkStr(string(rune(int32(r))))
+			if t.Op == OConst {
+				return ex.mkStr(string(rune(int32(toSigned(t.Val, t.W)))))
+			}
+			return ex.encodeRuneSym(t)
 		}
 		ff, tf := isFloat(fu), isFloat(tu)
 		switch {
@@ -1953,7 +1959,9 @@ func (ex *Exec) next(fr *frame, i *ssa.Next) Value {
 		}
 		if b.Op != OConst {
 			if !ex.decide(st.Cmp(OUlt, b, st.Const(8, 0x80))) {
-				ex.unsupported("range over string with symbolic non-ASCII byte")
+				r, sz := ex.decodeRuneSym(it.str.B[it.pos:])
+				it.pos += sz
+				return Tuple{st.T, st.Const(64, uint64(p)), r}
 			}
 		}
 		it.pos++
@@ -2512,4 +2520,86 @@ func (ex *Exec) tryMerge(fr *frame, b *ssa.BasicBlock, c *Term) (*ssa.BasicBlock
 	fr.phiBlock = mi.join
 	ex.Stats.Merges++
 	return mi.join, true
+}
+
+
+// decodeRuneSym decodes one UTF-8 sequence whose lead byte is >= 0x80 and possibly symbolic, forking over
+// the encoding classes of the Unicode standard (table 3-7); returns the rune term and the width.
+func (ex *Exec) decodeRuneSym(b []*Term) (*Term, int) {
+	st := ex.st
+	c8 := func(v int) *Term { return st.Const(8, uint64(v)) }
+	in := func(x *Term, lo, hi int) *Term {
+		return st.And(st.Cmp(OUle, c8(lo), x), st.Cmp(OUle, x, c8(hi)))
+	}
+	bad := func() (*Term, int) { return st.Const(32, 0xFFFD), 1 }
+	cont := func(x *Term) *Term { return st.ZExt(st.Extract(x, 5, 0), 32) }
+	b0 := b[0]
+	type cls struct{ lo, hi, n, lo1, hi1 int }
+	classes := []cls{{0xC2, 0xDF, 2, 0x80, 0xBF}, {0xE0, 0xE0, 3, 0xA0, 0xBF}, {0xE1, 0xEC, 3, 0x80, 0xBF}, {0xED, 0xED, 3, 0x80, 0x9F},
+		{0xEE, 0xEF, 3, 0x80, 0xBF}, {0xF0, 0xF0, 4, 0x90, 0xBF}, {0xF1, 0xF3, 4, 0x80, 0xBF}, {0xF4, 0xF4, 4, 0x80, 0x8F}}
+	for _, c := range classes {
+		if !ex.decide(in(b0, c.lo, c.hi)) {
+			continue
+		}
+		if len(b) < c.n {
+			return bad()
+		}
+		if !ex.decide(in(b[1], c.lo1, c.hi1)) {
+			return bad()
+		}
+		for k := 2; k < c.n; k++ {
+			if !ex.decide(in(b[k], 0x80, 0xBF)) {
+				return bad()
+			}
+		}
+		switch c.n {
+		case 2:
+			r := st.Bin(OBOr, st.Bin(OShl, st.ZExt(st.Extract(b0, 4, 0), 32), st.Const(32, 6)), cont(b[1]))
+			return r, 2
+		case 3:
+			r := st.Bin(OBOr, st.Bin(OShl, st.ZExt(st.Extract(b0, 3, 0), 32), st.Const(32, 12)),
+				st.Bin(OBOr, st.Bin(OShl, cont(b[1]), st.Const(32, 6)), cont(b[2])))
+			return r, 3
+		default:
+			r := st.Bin(OBOr, st.Bin(OShl, st.ZExt(st.Extract(b0, 2, 0), 32), st.Const(32, 18)),
+				st.Bin(OBOr, st.Bin(OShl, cont(b[1]), st.Const(32, 12)),
+					st.Bin(OBOr, st.Bin(OShl, cont(b[2]), st.Const(32, 6)), cont(b[3]))))
+			return r, 4
+		}
+	}
+	return bad()
+}
+
+
+// encodeRuneSym is string(rune) for a symbolic rune: forks over the UTF-8 length classes.
+func (ex *Exec) encodeRuneSym(t *Term) Value {
+	st := ex.st
+	r := t
+	if r.W < 32 {
+		r = st.ZExt(r, 32)
+	} else if r.W > 32 {
+		// values that do not fit 32 bits are invalid runes
+		if !ex.decide(st.Cmp(OUle, r, st.Const(r.W, 0x10FFFF))) {
+			return ex.mkStr("\uFFFD")
+		}
+		r = st.Trunc(r, 32)
+	}
+	c := func(v uint64) *Term { return st.Const(32, v) }
+	b8 := func(x *Term) *Term { return st.Trunc(x, 8) }
+	or := func(x *Term, k uint64) *Term { return st.Bin(OBOr, x, c(k)) }
+	shr := func(x *Term, k uint64) *Term { return st.Bin(OLShr, x, c(k)) }
+	low6 := func(x *Term) *Term { return st.Bin(OBAnd, x, c(0x3f)) }
+	switch {
+	case ex.decide(st.Cmp(OUlt, r, c(0x80))):
+		return Str{B: []*Term{b8(r)}}
+	case ex.decide(st.Cmp(OUlt, r, c(0x800))):
+		return Str{B: []*Term{b8(or(shr(r, 6), 0xC0)), b8(or(low6(r), 0x80))}}
+	case ex.decide(st.And(st.Cmp(OUle, c(0xD800), r), st.Cmp(OUle, r, c(0xDFFF)))):
+		return ex.mkStr("\uFFFD")
+	case ex.decide(st.Cmp(OUlt, r, c(0x10000))):
+		return Str{B: []*Term{b8(or(shr(r, 12), 0xE0)), b8(or(low6(shr(r, 6)), 0x80)), b8(or(low6(r), 0x80))}}
+	case ex.decide(st.Cmp(OUle, r, c(0x10FFFF))):
+		return Str{B: []*Term{b8(or(shr(r, 18), 0xF0)), b8(or(low6(shr(r, 12)), 0x80)), b8(or(low6(shr(r, 6)), 0x80)), b8(or(low6(r), 0x80))}}
+	}
+	return ex.mkStr("\uFFFD")
 }
